@@ -31,6 +31,14 @@ pub struct GraphSpec {
     /// command, no text after it)
     #[serde(default)]
     pub eof_dep: bool,
+    /// file i's source is named f{i}.txtpp.txt instead of f{i}.txt.txtpp (same output name)
+    #[serde(default)]
+    pub alt_name: Vec<bool>,
+    /// rich rendering: dependency directives carry the same `-` prefix as the run directives,
+    /// and a text line follows every run line (a line starting with the prefix of an open run
+    /// directive would continue it)
+    #[serde(default)]
+    pub dash_deps: bool,
 }
 
 pub fn dir_name(d: u8) -> &'static str {
@@ -51,7 +59,12 @@ impl GraphSpec {
         }
     }
     pub fn src_path(&self, i: usize) -> String {
-        format!("{}.txtpp", self.out_path(i))
+        if self.alt_name.get(i).copied().unwrap_or(false) {
+            let out = self.out_path(i);
+            format!("{}.txtpp.txt", out.strip_suffix(".txt").unwrap_or(&out))
+        } else {
+            format!("{}.txtpp", self.out_path(i))
+        }
     }
     pub fn out_edges(&self, i: usize) -> Vec<usize> {
         let mut v = vec![];
@@ -157,19 +170,20 @@ impl GraphSpec {
                 p.put(&self.src_path(i), s);
                 continue;
             }
+            let dash = if self.dash_deps { "-" } else { "" };
             for (k, (_, j, form)) in mine.iter().enumerate() {
                 let target = rel_path(my_dir, &self.out_path(*j));
                 match form {
                     EdgeForm::Include => {
-                        s.push_str(&format!("TXTPP#include {target}\n"));
+                        s.push_str(&format!("{dash}TXTPP#include {target}\n"));
                         s.push_str(&format!("-TXTPP#run echo post{i}_{k} >> {MARK}/log\n"));
                     }
                     EdgeForm::AfterCat => {
-                        s.push_str(&format!("TXTPP#after {target}\n"));
+                        s.push_str(&format!("{dash}TXTPP#after {target}\n"));
                         s.push_str(&format!("-TXTPP#run cat {target}; echo post{i}_{k} >> {MARK}/log\n"));
                     }
                 }
-                if k % 2 == 1 {
+                if k % 2 == 1 || self.dash_deps {
                     s.push_str(&format!("mid{i}_{k}\n"));
                 }
             }
@@ -204,6 +218,8 @@ pub fn graph_from_mask(n: usize, mask: u64, forms: u64, pre: u64, dirs: &[u8]) -
         rich: false,
         no_solo: false,
         eof_dep: false,
+        alt_name: (0..n).map(|i| pre >> (10 + 2 * i) & 3 == 3).collect(),
+        dash_deps: false,
     }
 }
 
@@ -257,5 +273,8 @@ pub fn gen_graph(c: &mut Choices, min_n: usize, max_n: usize, acyclic: bool, sub
     edges.sort_by_key(|e| e.0);
     let pre_marker = (0..n).map(|_| c.chance(1, 3)).collect();
     let dirs = (0..n).map(|_| if subdirs { c.weighted(&[3, 1, 1]) as u8 } else { 0 }).collect();
-    GraphSpec { n, edges, pre_marker, dirs, rich: c.chance(1, 2), no_solo: false, eof_dep: c.chance(1, 3) }
+    let rich = c.chance(1, 2);
+    let eof_dep = c.chance(1, 3);
+    let alt_name = (0..n).map(|_| c.chance(1, 3)).collect();
+    GraphSpec { n, edges, pre_marker, dirs, rich, no_solo: false, eof_dep, alt_name, dash_deps: c.chance(1, 2) }
 }
